@@ -18,6 +18,7 @@ type monReq struct {
 	admitted  bool // the quota answered "admit" to a question about this request
 	reasked   bool // was asked about, refused, and put back
 	heldBack  bool // returned while removals from the watch list were held back
+	lateEntry bool // entered the queue after the drain
 	created   bool
 	createdAt int64
 }
@@ -105,6 +106,7 @@ func monitor(k *Case) []c.Hit {
 			if m := reqs[op.R]; m != nil {
 				m.waiting = true
 				m.seq = seq
+				m.lateEntry = drained
 				seq++
 			}
 			if n := countWaiting(); n > maxWait {
@@ -195,7 +197,10 @@ func monitor(k *Case) []c.Hit {
 		}
 	}
 	for n, m := range reqs {
-		if m.waiting {
+		if m.waiting && m.lateEntry {
+			add("no-verdict:registered-after-drain", "every request gets a verdict; shutdown releases all waiters",
+				fmt.Sprintf("r%d was queued after the drain (loop and TTL watcher are gone) and still waits at the end of the case", n))
+		} else if m.waiting {
 			add("no-verdict", "every request gets a verdict", fmt.Sprintf("r%d still waits at the end of the case (after expiry + scan)", n))
 		}
 	}
